@@ -176,7 +176,7 @@ def _standins(E):
             verts = [f"v{i}" for i in range(n)]
             pairs = [(a, b) for a in verts for b in verts]
             for mask in range(2 ** len(pairs)):
-                if n == top and tier != "thorough" and mask % 7:
+                if n == top and mask % (7 if tier != "thorough" else 211):
                     continue
                 g = _G({v: frozenset(b for i, (a, b) in enumerate(pairs) if a == v and mask >> i & 1) for v in verts})
                 u = native.Universe()
@@ -223,7 +223,7 @@ def _standins(E):
         return dict(evaluations=evals, distinct_nontrivial=evals, violations=viol[:1],
                     samples=[{"axiom": k, "text": t} for k, t in E.axiom_texts.items() if k.startswith("rem/")][:2],
                     rule="the four assumed facts about the counting function rem, the two pigeonhole lemmas about len(dict) and the contract of deque(dict) evaluated on every digraph "
-                         "on <= 3 vertices (a seventh of them at 3; all <= 4 thorough), every subset D and every vertex sequence of length <= n + 1; deque operations vs the element-wise sequence model on random deques",
+                         "on <= 3 vertices (a seventh of them at 3; thorough: all <= 3 and every 211th on 4), every subset D and every vertex sequence of length <= n + 1; deque operations vs the element-wise sequence model on random deques",
                     exhaustive=False)
 
     E._c19_axioms = Standin("toposort:counting-axioms", run, describe="consistency guard of the assumed counting facts: all digraphs <= 3 (4) vertices")
